@@ -246,6 +246,9 @@ static CUR_FAM: Mutex<String> = Mutex::new(String::new());
 
 /// Remember which case the worker is executing (for the watchdog's dump); cheap when the family does not change.
 pub fn set_case(family: &str, idx: u64) {
+    // progress trail for the parent: a Miri process stopped at its wall-clock cap is credited with the cases it began
+    #[cfg(miri)]
+    eprintln!("VERIF-TAKE {} {}", family, idx);
     CUR_IDX.store(idx, Ordering::Relaxed);
     let h = family.len() as u64 * 131 + family.as_bytes().first().copied().unwrap_or(0) as u64 * 31 + family.as_bytes().last().copied().unwrap_or(0) as u64;
     if CUR_FAM_HASH.load(Ordering::Relaxed) != h {
